@@ -52,6 +52,14 @@ CLAIMS = {
         "Decides these table/flow clauses, not the renaming-invariance consequence.",
    technique="constant evaluation of tables + def-use slot tracing with kind classification + guard-chain analysis",
    ref="DESIGN.md §2 C13"),
+ "C17": dict(
+   text="Static analysis: CFG dominance of the processed-files guard (skip test + record, keyed by the resolved path, shared set, seeded with the starting file) around every recursive "
+        "expansion; the default search path is constant-evaluated with __file__ bound to the module's location and every documented spelling of every bundled library import must resolve "
+        "through an absolute entry; the selection-only library functions (abs, sign, min, max, clamp, between, skeleton of mod_positive) are parsed with the repository grammar and checked "
+        "on one representative of every weak ordering of their arguments and 0, which is an exact finite abstraction for bodies built from comparisons and selections. lerp, the bit "
+        "functions, div_floor and the arithmetic of mod_positive are not decided (32-bit identities need a solver or evaluation); 'import == pasted text' beyond R1/R2 is not decided.",
+   technique="CFG dominance + constant evaluation of the search path + order-type enumeration over Lark parse trees of lib/math.facto",
+   ref="DESIGN.md §2 C17"),
 }
 NA_DEFAULT = "check not built yet (build phase in progress); see DESIGN.md for the planned rules"
 NA = {}
